@@ -20,4 +20,19 @@ PROPS = {
         ],
         "assumptions": ["io.Reader semantics of bytes.Reader; the sync.Pool buffer is not aliased between concurrent encoders (by-value model)"],
     },
+    "C19": {
+        "harness": "c19",
+        "properties_v": "Properties/C19.v",
+        "make_targets": ["Check/C19.vo", "Properties/C19.vo"],
+        "model_targets": ["Check/C19.vo"],
+        "corr_bits": {1: "model (Model/MsgCodec.v, Model/PeerQueue.v) and implementation differ"},
+        "oracle_bits": {2: "message/frame does not survive encode/decode, an id does not give back its fields or order, Split drops/duplicates/exceeds the bound, or a queued message is not passed to the transport exactly once in order"},
+        "known_bits": {},
+        "mult": {"quick": 1, "thorough": 20},
+        "level_text": "Theorems over the byte-level model of the message/frame codec, the id layout, Frame.Split and the peer send queue as a transition system (all interleavings of senders and the flusher at lock granularity); model tied to the code by running both on generated messages, frames, ids and Send/Flush scripts every run.",
+        "level_note": "Trusted: Coq kernel + vm_compute; hand-written model validated by correspondence; snappy as an abstract bijection (the harness strips it with the same library); sync.Mutex atomicity of Send/swap and atomic.AddUint32; time.Now read by the harness within one second.",
+        "trusted_base": ["hand-written models coq/Model/MsgCodec.v, Model/PeerQueue.v tied by the c19 harness (hooks: harness/hooks/message, harness/hooks/service__cluster, build tag verif, overlay only)",
+                         "snappy.Encode/Decode treated as a bijection on byte strings", "sync.Mutex / atomic.AddUint32 atomicity"],
+        "assumptions": ["no sequence-counter wrap (2^32 ids) within one second for the ordering statement", "times within [2018-01-01, +2^32 s)"],
+    },
 }
